@@ -429,10 +429,10 @@ func vtC12Gen(r *rand.Rand, i int) (string, []int64) {
 		}
 	}
 	in = append(in, cur...)
-	label := "valid"
+	label := fmt.Sprintf("v%d/valid", ver+1)
 	malformed := r.Intn(12) == 0
 	if malformed {
-		label = "malformed"
+		label = fmt.Sprintf("v%d/malformed", ver+1)
 	}
 	nops := 1 + r.Intn(3)
 	var ops []int64
@@ -550,47 +550,23 @@ func vtC12Gen(r *rand.Rand, i int) (string, []int64) {
 				break
 			}
 		}
-		// levels: by depth, or one level per directory in a topological order
+		// levels: by depth (empty levels are kept), or one level per directory in a topological order
 		var lv [][]int
 		if r.Intn(4) == 0 {
 			for d := 0; d < nd; d++ {
 				lv = append(lv, []int{d})
 			}
 		} else {
-			lv = make([][]int, 4)
+			maxd := 0
 			for d := 0; d < nd; d++ {
-				l := depth[d]
-				if l > 3 {
-					l = 3
-				}
-				for depth[d] > 3 && false {
-				}
-				lv[l] = append(lv[l], d)
-			}
-			// directories deeper than 3 would share a level with their parent: give each its own level
-			var fixed [][]int
-			for l, ds := range lv {
-				if l < 3 {
-					fixed = append(fixed, ds)
-					continue
-				}
-				maxd := 0
-				for _, d := range ds {
-					if depth[d] > maxd {
-						maxd = depth[d]
-					}
-				}
-				for dd := 3; dd <= maxd; dd++ {
-					var row []int
-					for _, d := range ds {
-						if depth[d] == dd {
-							row = append(row, d)
-						}
-					}
-					fixed = append(fixed, row)
+				if depth[d] > maxd {
+					maxd = depth[d]
 				}
 			}
-			lv = fixed
+			lv = make([][]int, maxd+1+r.Intn(2))
+			for d := 0; d < nd; d++ {
+				lv[depth[d]] = append(lv[depth[d]], d)
+			}
 		}
 		if malformed && r.Intn(3) == 0 && len(lv) > 1 {
 			a, b := r.Intn(len(lv)), r.Intn(len(lv))
